@@ -19,7 +19,7 @@ KINDS = {
     "vertex_perm": "exact", "triangle_rotation": "exact", "rename": "exact", "boundary_order": "exact",
     "interface_order": "exact", "format_off": "exact", "format_bnd": "exact", "api": "exact", "syntax": "exact",
     "cond_order": "exact", "mesh_flip": "exact", "local_flips": "exact", "old_ordering": "exact", "reload": "exact",
-    "domain_order": "exact",
+    "domain_order": "exact", "domain_reverse": "exact",
     "triangle_order": "asym", "mesh_order": "asym",
     "format_mesh32": "exact32",
 }
@@ -137,6 +137,8 @@ def variant(m, rng, kind):
     fmt, style, api = "tri", "1.1", False
     if kind in ("vertex_perm", "triangle_rotation", "rename", "boundary_order", "interface_order", "triangle_order", "mesh_order", "domain_order", "mesh_flip", "local_flips"):
         v = gd.redescribe(m, rng, kind)
+    elif kind == "domain_reverse":
+        v = gd.redescribe(m, rng, "identity"); v["domains"] = list(reversed(v["domains"]))
     elif kind == "format_off": v, fmt = m, "off"
     elif kind == "format_bnd": v, fmt = m, "bnd"
     elif kind == "format_mesh32": v, fmt = round32(m), "mesh"
@@ -149,6 +151,7 @@ def variant(m, rng, kind):
 def shrink_candidates(m, kind, rng):
     """smaller re-descriptions of the same kind: one mesh, one transposition / one swapped pair / one rotated triangle"""
     out = []
+    if kind == "domain_reverse": kind = "domain_order"
     if kind in ("domain_order", "boundary_order", "interface_order", "mesh_order"):
         key = {"domain_order": "domains", "interface_order": "interfaces", "mesh_order": "meshes"}.get(kind)
         for _ in range(6):
@@ -206,7 +209,8 @@ def main(replay=None):
             g = gd.write_geom(v, d, fmt, style, rng)
             if g is None: gd.write_geom(v, d, fmt, "1.1", rng)
             gd.write_cond(v, d, rng if cond_shuffle else None)
-        hline = core.fcase("c06", [2 if api else 1, cid, len(dips), len(sens), 1 if old else 0, len(obs)], [x for dd in dips for x in dd] + [x for s in sens for x in s] + [x for o_ in obs for x in o_])
+        ecog = 1 if v.get("info", {}).get("kind") == "nested" and len(v["meshes"]) >= 2 else 0
+        hline = core.fcase("c06", [2 if api else 1, cid, len(dips), len(sens), 1 if old else 0, len(obs), ecog], [x for dd in dips for x in dd] + [x for s in sens for x in s] + [x for o_ in obs for x in o_])
         runs.append(dict(kind=kind, base=base, hline=hline, model=v, fmt=fmt, style=style, api=api, dips=dips, sens=sens, cid=cid, old=old, obs=[tuple(o_) for o_ in obs]))
     if replay:
         R = json.load(open(replay))
@@ -272,12 +276,12 @@ def main(replay=None):
         if zi[1:3] != bz[1:3] or len(fl) != len(bf):
             ck.violation("%s: shape (%s)" % (r["kind"], top), "gain shape differs", rep); continue
         def blocks(z, f):
-            ne = z[1] * z[2]; nm_ = z[5] * z[2]             # EEG block, MEG block, internal-potential block
-            return [f[:ne], f[ne:ne + nm_], f[ne + nm_:]]
+            ne = z[1] * z[2]; nm_ = z[5] * z[2]; ni_ = z[6] * z[2]   # EEG, MEG, internal potential, then innermost interface + ECoG
+            return [f[:ne], f[ne:ne + nm_], f[ne + nm_:ne + nm_ + ni_], f[ne + nm_ + ni_:]]
         def differ3(f1, f2, z1, z2):
             return [(frob_rel(a, b) if (a or b) else 0.0) for a, b in zip(blocks(z1, f1), blocks(z2, f2))]
         def differ(f1, f2, z1, z2): return max(differ3(f1, f2, z1, z2))
-        BL = ("eeg", "meg", "ip")
+        BL = ("eeg", "meg", "ip", "eeg")       # the ECoG block uses the EEG asymmetry bound
         def within(e3, cls_):
             if cls_ in ("exact", "exact32"): return max(e3) <= EXACT_TOL
             return all(x <= calib.get("asym_bound_" + b, calib.get("asym_bound", 3e-4)) for x, b in zip(e3, BL))
@@ -288,7 +292,8 @@ def main(replay=None):
         key = "%s/%s" % (cls, r["kind"])
         worst[key] = max(worst.get(key, 0.0), e)
         if cls == "asym":
-            for x, b in zip(e3, BL): worst["asymblock/" + b] = max(worst.get("asymblock/" + b, 0.0), x)
+            for x, b in zip(e3[:3], BL[:3]): worst["asymblock/" + b] = max(worst.get("asymblock/" + b, 0.0), x)
+            worst["asymblock/ecog"] = max(worst.get("asymblock/ecog", 0.0), e3[3])
         if os.environ.get('C06_DEBUG'): print('DBG', top, r['kind'], '%.3g' % e, bz[1:], file=sys.stderr)
         if calibrate: continue
         tol = EXACT_TOL if cls in ("exact", "exact32") else max(calib.get("asym_bound_" + b, 3e-4) for b in BL)
@@ -300,7 +305,7 @@ def main(replay=None):
                 for q, (v, what) in enumerate(cands):
                     cid = 50000 + q; d = os.path.join(ck.workdir, "c%d" % cid); shutil.rmtree(d, ignore_errors=True); os.makedirs(d)
                     gd.write_geom(v, d, "tri", "1.1", rng); gd.write_cond(v, d, None)
-                    lines.append(core.fcase("c06", [1, cid, len(base["dips"]), len(base["sens"]), 0, len(base["obs"])], [x for dd in base["dips"] for x in dd] + [x for s_ in base["sens"] for x in s_] + [x for o_ in base["obs"] for x in o_]))
+                    lines.append(core.fcase("c06", [1, cid, len(base["dips"]), len(base["sens"]), 0, len(base["obs"]), 1 if v.get("info", {}).get("kind") == "nested" and len(v["meshes"]) >= 2 else 0], [x for dd in base["dips"] for x in dd] + [x for s_ in base["sens"] for x in s_] + [x for o_ in base["obs"] for x in o_]))
                 _, so, _ = core.run_harness(hb, lines, ck.workdir, timeout=900, tag="shrink")
                 for (v, what), l in zip(cands, so):
                     z2, f2 = core.fparse(l)
@@ -309,7 +314,7 @@ def main(replay=None):
                         rep["shrunk_to"] = what + " (difference %.3g)" % differ(bf, f2, bz, z2)
                         break
             ck.violation("%s changes the gain (%s)" % (r["kind"], top),
-                         "EEG / MEG / internal-potential gain of the %s re-description differs from the original by %.3g relative Frobenius (class %s, allowed %.3g; per block EEG %.2g, MEG %.2g, internal potential %.2g) on a %s model" % (r["kind"], e, cls, tol, e3[0], e3[1], e3[2], top), rep)
+                         "EEG / MEG / internal-potential gain of the %s re-description differs from the original by %.3g relative Frobenius (class %s, allowed %.3g; per block EEG %.2g, MEG %.2g, internal potential %.2g, innermost interface + ECoG %.2g) on a %s model" % (r["kind"], e, cls, tol, e3[0], e3[1], e3[2], e3[3], top), rep)
     if calibrate:
         am = max([v for k, v in worst.items() if k.startswith("asym/")] + [0.0]); e32 = max([v for k, v in worst.items() if k.startswith("exact32/")] + [0.0])
         os.makedirs(os.path.dirname(CALIB), exist_ok=True)
